@@ -14,7 +14,8 @@ ScenariosMC == {
     << <<Mark({0}), Clone>>, <<Harvest, Mark({0})>> >>,
     << <<Mark({3}), Mark({4})>>, <<Harvest, Harvest>> >>,
     << <<Mark({2, 3, 4, 5})>>, <<Reset>>, <<Mark({3})>> >>,
-    << <<Mark({7, 8})>>, <<Harvest>> >>        \* page 8 is beyond the bitmap: ignored
+    << <<Mark({7, 8})>>, <<Harvest>> >>,       \* page 8 is beyond the bitmap: ignored
+    << <<Mark({1}), Mark({1})>>, <<Harvest>> >>  \* the same page marked twice around a harvest: both marks count
 }
 ScenariosThorough == ScenariosMC \cup {
     << <<Mark({2, 3, 4}), Mark({0})>>, <<Harvest, Mark({4}), Harvest>> >>,
